@@ -2,7 +2,7 @@
 import sys
 import common as C
 
-CRATES = {"fh-core": ["fh-codec", "fh-seq", "fh-spsc"], "fh-rep": ["fh-rep"], "fh-off": ["fh-off"]}
+CRATES = {"fh-core": ["fh-codec", "fh-seq", "fh-spsc"], "fh-rep": ["fh-rep"], "fh-off": ["fh-off"], "fh-macro": ["fh-macro"]}
 bad = 0
 for crate, bins in CRATES.items():
     ok, err = C.cargo_build(crate, bins)
